@@ -1,7 +1,7 @@
 #!/bin/bash
 # ./check.sh <Cxx> quick|thorough   |  ./check.sh replay <file>  |  ./check.sh setup
 set -u
-cd /verif
+cd "$(dirname "$(readlink -f "$0")")"
 export CARGO_NET_OFFLINE=true
 case "${1:-}" in
   setup)
